@@ -442,9 +442,15 @@ scanopen(void)
 	}
 }
 
+/*
+set the location of the line that the scanner numbered 'line' so far;
+the scanner may already have read past further line breaks at its start
+*/
 void
-scansetloc(struct location loc)
+scansetloc(struct location loc, size_t line)
 {
+	loc.line += scanner->loc.line - line;
+	loc.col = scanner->loc.col;
 	scanner->loc = loc;
 }
 
